@@ -321,6 +321,13 @@ def replaceBag (old new : Seq) (b : Bag) : Bag × Bool :=
   let b' := mapSeqs (replaceAll old new) b
   (b', b.isAlign && b'.rows.any fun r => (r.seq.length : Int) != b'.length)
 
+/-- `align.Replace(old, new, true)` once the regular expression compiled, `f` = the value of
+`r.ReplaceAllString(sequence, new)` (regexp is external): every sequence replaced, then an error if some row no
+longer has the cached length -/
+def replaceBagWith (f : Seq → Seq) (b : Bag) : Bag × Bool :=
+  let b' := mapSeqs f b
+  (b', b.isAlign && b'.rows.any fun r => (r.seq.length : Int) != b'.length)
+
 def setAt (s : Seq) (i : Nat) (c : Byte) : Seq := s.set i c
 
 def setSequenceChar (i j : Int) (c : Byte) (b : Bag) : Bag × Bool :=
